@@ -211,6 +211,13 @@ def run(tier, seed):
                      "actions": rec["sel"], "detail": rec["note"]})
     if model_viol:
         print("MODEL-DRIFT C12: Layout.tla violates %s" % model_viol)
+    # ants are replicas: pheromone of instance i only from tours of instance i, training advantage over the own ants (ACO.tla)
+    from . import c15c_aco
+    va, ca = c15c_aco.violations(tier, seed, parts=("model", "e2e", "loglik"))
+    viol += [v for v in va if v["property"] == "C12"]
+    states += ca["states"]
+    trans += ca["transitions"]
+    n_rep += ca["replayed"]
     n_new, n_known = verdict.report("C12", viol)
     from . import unbounded
     unb = unbounded.for_property("C12", tier)      # Apalache / TLAPS: the index algebra for ALL batch sizes, depths, factors, K
@@ -219,6 +226,7 @@ def run(tier, seed):
            "samples": samples, "exhaustive": True, "model_constants": C, "start_node_records": len(recs),
            "replayed_model_states": n_rep, "known_finding_witnesses": n_known,
            "tlc_action_coverage": r1.coverage(), "unbounded": unb,
+           "ant_colony_search": {k: v for k, v in ca.items() if k != "samples"},
            "explanation": "Layout.tla model-checked; terminal states replayed into batchify/unbatchify/_select_best; "
                           "select_start_nodes of real envs validated by LayoutTrace.tla; the index algebra is lifted to all batch "
                           "sizes / nesting depths / factors / K by Apalache inductive invariants (MC_Layout_apa.tla) and TLAPS "
